@@ -20,7 +20,7 @@ func init() {
 			{ID: "C13.R1", Doc: "native: Object and List paths build fresh results holding native(x) of every visited value under the same key / in order; every other path returns the operand", Run: c13Native},
 			{ID: "C13.R2", Doc: "NativeDict/NativeSlice return native(receiver); Dict is a fresh one-level snapshot of getVal() per field", Run: c13Snapshots},
 			{ID: "C13.R4", Doc: "Slice and the typed slices visit every element in order without filtering beyond their kind (= C14 on the Slice family)", Run: func(c *Ctx) {
-				c.R.Floor("C13.R4", runAs(c, "C13.R4", c14Run, func(o *Obligation) bool { return strings.Contains(o.Construct, "Slice") }), 7)
+				c.R.Floor("C13.R4", runAs(c, "C13.R4", c14Run, func(o *Obligation) bool { return strings.Contains(o.Construct, "Slice") }), 3)
 			}},
 			{ID: "C13.R3", Doc: "no aliasing by typing and origin: struct shapes, FRESH Go-typed results, element-wise From-constructors", Run: func(c *Ctx) {
 				structShapeRule(c, "C13.R3")
